@@ -28,7 +28,7 @@ pub fn run(id: &str, tier: Tier, seed: u64) -> i32 {
         "C02" => progs::run(&Ctx::new(id, tier, seed, 60.0, 720.0), progs::Kind::C02),
         "C14" => progs::run(&Ctx::new(id, tier, seed, 60.0, 720.0), progs::Kind::C14),
         "C03" => c03::run(&Ctx::new(id, tier, seed, 40.0, 360.0)),
-        "C04" => c04::run(&Ctx::new(id, tier, seed, 60.0, 900.0)),
+        "C04" => c04::run(&Ctx::new(id, tier, seed, 60.0, 1800.0)),
         "C05" => c05::run(&Ctx::new(id, tier, seed, 60.0, 600.0)),
         "C06" => c06::run(&Ctx::new(id, tier, seed, 45.0, 480.0)),
         "C07" => c07::run(&Ctx::new(id, tier, seed, 90.0, 900.0)),
